@@ -10,6 +10,7 @@ import SspModel.Model.IFMR
 import SspModel.Model.Schedule
 import SspModel.Model.Extract
 import SspModel.Model.Validate
+import SspModel.Model.FeH
 /-!
 # Line-protocol driver: one op per line in, one line out. Doubles cross as 16-hex-digit bit patterns.
 Runs the *same* model terms the theorems are about, at the `Float` instance.
@@ -76,6 +77,18 @@ def clsName : RemClass → String
 def starBins : List Float → List (StarBin Float)
   | n :: a :: lo :: hi :: t => ⟨n, a, lo, hi⟩ :: starBins t
   | _ => []
+
+/-- exact decomposition of a finite double: (negative?, m, e) with |x| = m·2^e -/
+def decodeDouble (f : Float) : Bool × Nat × Int :=
+  let b := f.toBits.toNat
+  let neg := (b >>> 63) % 2 == 1
+  let ex := (b >>> 52) % 2048
+  let frac := b % 4503599627370496
+  if ex == 0 then (neg, frac, -1074) else (neg, frac + 4503599627370496, (ex : Int) - 1075)
+
+def nameStr (x : Model.FeH.Name) : String :=
+  let cents := x.n % 100
+  s!"{if x.neg then "-" else "+"}{x.n / 100}.{if cents < 10 then "0" else ""}{cents}"
 
 def step (ws : List String) : String :=
   match ws with
@@ -219,6 +232,12 @@ def step (ws : List String) : String :=
     | _ => "bad-op"
   | "lineValid" :: e :: sl :: sc :: lo :: hi :: [] =>
     toString (lineValid (parseHex e) (parseHex sl) (parseHex sc) (parseHex lo) (if hi == "inf" then none else some (parseHex hi)))
+  | ["fmt", x] =>
+    let (neg, m, e) := decodeDouble (parseHex x)
+    nameStr (Model.FeH.fmtPlus2 neg m e)
+  | ["snap", lo, hi, x] =>
+    let (neg, m, e) := decodeDouble (parseHex x)
+    nameStr (Model.FeH.snapName lo.toInt! hi.toInt! neg m e)
   | ["mrem", d, mb, mt] => toHex (Mrem (parseHex d) (parseHex mb) (parseHex mt))
   | ["sigmoid", slope, scale, m] => toHex (sigmoidRet (parseHex slope) (parseHex scale) (parseHex m))
   | ["erf", x] => toHex (Scalar.erf (parseHex x))
